@@ -195,6 +195,47 @@ def is_log(e):
     return e[0] == 'call' and e[1] == ('var', 'softHSMLog')
 
 
+# helper functions of SoftHSM.cpp that only compute from their value arguments and write their results through reference
+# parameters (no other state): a call `rv = f(a, b, out1, out2)` is translated by HAVOC - rv and every variable passed by
+# non-const reference are re-bound to fresh, universally quantified parameters.  Sound for theorems of the form
+# "the body is reached only if ...": whatever the helper returned, the guards that follow were applied to those values.
+HAVOC_CALLEES = ('extractObjectInformation',)
+
+
+def havoc_call(c, s):
+    """[(variable, fresh parameter)] when the statement is `x = f(...)`, `T x = f(...)` or `f(...)` with f whitelisted"""
+    target = None
+    if s[0] == 'expr':
+        e = s[1]
+        if e[0] == 'bin' and e[1] == '=' and e[2][0] == 'var':
+            target, call = e[2][1], e[3]
+        else:
+            call = e
+    else:
+        target, call = s[1], s[3]
+    if call is None or call[0] != 'call' or call[1][0] != 'var' or call[1][1] not in HAVOC_CALLEES:
+        return None
+    c.fresh += 1
+    n = c.fresh
+    out = []
+    for a in call[2]:
+        if a[0] == 'refarg':
+            v = a[1]
+            ty = c.types.get(v, 'N')
+            p = 'hv%d_%s' % (n, ident(v))
+            c.extern(p, ty)
+            out.append((ident(v), p))
+    if target is not None:
+        ty = c.types.get(target, 'N')
+        if s[0] == 'decl':
+            ty = 'bool' if s[2] in BOOL_TYPES else 'N'
+            c.types[target] = ty
+        p = 'hv%d_%s' % (n, ident(target))
+        c.extern(p, ty)
+        out.append((ident(target), p))
+    return out
+
+
 def always_exits(ss):
     """does this statement list always leave by return (never fall through / break)?"""
     for s in ss:
@@ -250,6 +291,11 @@ def tr_s_inner(c, ss, k_fall, k_break):
             eff = '(18446744073709551614, %s)' % as_N(c, e[3])
         if eff is not None:
             return '(let acc := %s :: acc in %s)' % (eff, tr_s(c, rest, k_fall, k_break))
+    if k in ('expr', 'decl'):
+        hv = havoc_call(c, s)
+        if hv is not None:
+            binds = ''.join('(let %s := %s in ' % (v, t) for (v, t) in hv)
+            return binds + tr_s(c, rest, k_fall, k_break) + ')' * len(hv)
     if k == 'expr':
         e = s[1]
         if is_log(e):
